@@ -162,6 +162,64 @@ func genC17(g *Gen) {
 		allSizes([]string{big}, "shape-long")
 		allSizes([]string{big[:65536], "b"}, "shape-long")
 	}
+	// (2c) very deep shared prefixes: adjacent keys sharing 65535..65540 bytes (a common-prefix length
+	// kept in 16 bits wraps here only); a handful of cases -- each argument text is ~130 KB per key
+	{
+		deep := func(pl int, tails ...string) []string {
+			p := strings.Repeat("a", pl)
+			var ks []string
+			for _, t := range tails {
+				ks = append(ks, p+t)
+			}
+			return c16SortDedup(ks)
+		}
+		for _, ks := range [][]string{
+			deep(65535, "a", "b"),
+			deep(65536, "a", "b", "ba"),
+			deep(65537, "b", "c"),
+			deep(65540, "", "a", "b", "ba"),
+		} {
+			for _, ms := range []int{1, 2, len(ks)} {
+				if ms == 2 && len(ks) == 2 {
+					continue
+				}
+				do(ks, ms, "shape-deep64k")
+			}
+		}
+	}
+	// (2d) full fan-out: a range whose keys go on with ALL 256 values of the next byte (and 255 / 254 of
+	// them), with and without the bare prefix as a key (257 sub-ranges), sub-ranges of 1..3 keys, directly
+	// and one level deeper (3-byte prefix); maxSize around the fan-out -- a bounded split list shows here only
+	{
+		for _, p := range []string{"p", "pqr"} {
+			for _, nb := range []int{256, 255, 254} {
+				for _, self := range []bool{true, false} {
+					var ks []string
+					if self {
+						ks = append(ks, p)
+					}
+					for b := 256 - nb; b < 256; b++ {
+						h := p + string([]byte{byte(b)})
+						switch b % 3 {
+						case 0:
+							ks = append(ks, h)
+						case 1:
+							ks = append(ks, h+"x", h+"y")
+						default:
+							ks = append(ks, h, h+"a", h+"b")
+						}
+					}
+					if p == "pqr" {
+						ks = append(ks, "a", "pq", "q")
+					}
+					ks = c16SortDedup(ks)
+					for _, ms := range []int{1, 2, 3, 128, 255, 256, 257, 258} {
+						do(ks, ms, "shape-fanout256")
+					}
+				}
+			}
+		}
+	}
 	// (3) structured random key sets
 	nb := g.N(500, 10000)
 	for k := 0; k < nb; k++ {
